@@ -237,8 +237,8 @@ pub fn run(r: &mut Run) {
             .into(),
     );
     r.assumptions.push(
-        "cosine of a zero-norm vector = 1.0 (library convention); cosine operands otherwise have norm >= 1e-3 * sqrt(dim) classes only \
-         where stated (tiny-norm cosine is reported separately, see known findings / report)"
+        "cosine of a zero-norm vector = 1.0 (the library's constant; tests call it undefined). Non-zero components have |x| >= 1e-15 \
+         (class Tiny: 1e-15..1e-3) so that squares and norms stay normal f32 numbers; subnormals appear only as sign inputs of the binary quantiser"
             .into(),
     );
     r.assumptions.push(
